@@ -81,6 +81,9 @@ def extra(mon, tier, seed):
         # exactly when A mod N' == 0
         low_cleared = M.le(bytes(8) + M.N_LE[8:])
         primes += [4, 6, 9, 15, 256, 65536, 3 * 2 ** 64, 2 ** 128, 3 * 2 ** 200, low_cleared, M.N - 1, 255 * 2 ** 16, 10 ** 12]
+        inj_ok = False
+        pre = []
+        ncall = 0
         for p_ in primes:
             for g in sorted(set([2, 3, 5, 7, 14, 21, 22, 26, 33, 34, 35, 39, 51, 55, 65, 77, 85, 91, 119, 143, 187, 221, 251, 255]
                                 + [p_ * k for k in range(1, 256 // p_ + 1) if p_ * k < 256 and p_ * k >= 2][:6])):
@@ -91,10 +94,19 @@ def extra(mon, tier, seed):
                 if B == 0:
                     B += p_
                 w.reset()
+                ncall += 1
+                if ncall % 23 == 5:
+                    # a sibling call that fails (announced modulus 0 or 1: whatever it does - it panics on the reference tree - is
+                    # not judged) must leave nothing behind for the calls that follow in this process
+                    bad = w.call("cli_new", into=4, u="OWNKEY", p="PW", g=7, N=M.to_le(ncall % 2), B=M.to_le(5), salt=bytes(32))
+                    pre = [bad.cmd]
+                    mon.count("contained_failing_sibling_calls")
                 w.script([M.to_le(a)])
                 r = w.call("cli_new", into=3, u="OWNKEY", p="PW", g=g, N=M.to_le(p_), B=M.to_le(B), salt=bytes(32))
                 mon.ev()
-                replay = {"engine": "wsx", "kind": "raw", "commands": ["rng_script\tchunks=" + M.to_le(a).hex(), r.cmd]}
+                if r.rng and r.rng[0] == M.to_le(a):
+                    inj_ok = True
+                replay = {"engine": "wsx", "kind": "raw", "commands": pre + ["rng_script\tchunks=" + M.to_le(a).hex(), r.cmd]}
                 A = pow(g, a, p_)
                 if A % p_ == 0:
                     if r.status == "panic":
@@ -117,7 +129,7 @@ def extra(mon, tier, seed):
                     if S == 0:
                         mon.count("degenerate_S0_skipped")
                         continue
-                    if r.rng and r.rng[0] == M.to_le(a):
+                    if (r.rng and r.rng[0] == M.to_le(a)) or (inj_ok and not r.rng):
                         mon.violation("c04:own_A_valid_refused", "client panicked although A = %d is not 0 mod %d (g=%d): %s" % (A, p_, g, r.f.get("msg", "")[:100]), replay)
                     continue
                 if r.ok:
